@@ -14,6 +14,7 @@ import signal
 import sys
 import time
 
+import zlib
 import common
 import paths
 import values
@@ -87,7 +88,10 @@ def to_input(v):
     if isinstance(v, seqgen.Iter):
         return iter([to_input(x) for x in v.items])
     if isinstance(v, tuple):
-        return [to_input(x) for x in v]
+        # a host sequence is a list or a tuple (json.loads gives lists, database rows and host code often tuples), and
+        # either may hold mutable containers; which one is chosen from the content, so a case replays identically
+        items = [to_input(x) for x in v]
+        return tuple(items) if zlib.crc32(repr(v).encode('utf8', 'replace')) % 3 == 0 else items
     if isinstance(v, dict):
         return {k: to_input(x) for k, x in v.items()}
     if isinstance(v, frozenset):
